@@ -129,6 +129,10 @@ pub fn load_known() -> KnownFindings {
     }
 }
 
+pub fn known_key(k: &KnownFinding) -> String {
+    format!("{}|{}|{}", k.property, k.rule, k.requires_tags.join(","))
+}
+
 pub fn match_known<'a>(k: &'a KnownFindings, prop: &str, v: &Violation) -> Option<&'a KnownFinding> {
     k.findings.iter().find(|f| {
         (f.property == prop || (f.rule.starts_with("panic@") && v.rule.starts_with("panic@")))
@@ -267,7 +271,7 @@ pub fn worker(a: &WorkerArgs) -> i32 {
                     sigs.insert(o.sig);
                 }
                 if let Some(k) = match_known(&known, &a.prop, v) {
-                    *rep.known_hits.entry(k.rule.clone()).or_insert(0) += 1;
+                    *rep.known_hits.entry(known_key(k)).or_insert(0) += 1;
                 } else {
                     if let Ok(d) = std::env::var("KSIM_DUMP_FAILS") {
                         let _ = std::fs::create_dir_all(&d);
@@ -888,8 +892,8 @@ pub fn run_main(a: &RunArgs) -> i32 {
             Some(i) => {
                 let case = p.gen(run_seed(a.seed, i), a.tier);
                 let v = check_isolated(&a.prop, &case, 60.0).unwrap_or(Violation { rule: format!("abort: worker died ({desc})"), detail: format!("run index {i}"), tags: vec!["abort".into()] });
-                if match_known(&known, &a.prop, &v).is_some() {
-                    *total.known_hits.entry(v.rule.clone()).or_insert(0) += 1;
+                if let Some(k) = match_known(&known, &a.prop, &v) {
+                    *total.known_hits.entry(known_key(k)).or_insert(0) += 1;
                 } else if !violations.iter().any(|(v2, _)| v2.rule == v.rule) {
                     violations.push((v, case));
                 }
@@ -905,10 +909,10 @@ pub fn run_main(a: &RunArgs) -> i32 {
     }
     // known findings
     let mut printed: HashSet<String> = HashSet::new();
-    for (rule, n) in &total.known_hits {
-        if let Some(k) = known.findings.iter().find(|f| &f.rule == rule) {
-            if printed.insert(rule.clone()) {
-                println!("KNOWN-FINDING: property={} {} [rule: {}] (hit {} times in this run)", k.property, k.what, k.rule, n);
+    for (key, n) in &total.known_hits {
+        if let Some(k) = known.findings.iter().find(|f| &known_key(f) == key) {
+            if printed.insert(key.clone()) {
+                println!("KNOWN-FINDING: property={} {} [rule: {} tags: {:?}] (hit {} times in this run)", k.property, k.what, k.rule, k.requires_tags, n);
             }
         }
     }
